@@ -312,6 +312,11 @@ def decide(prop_id: str, tier: str, seed: int) -> int:
     build_s = lake_build()
     grep_forbidden()
     thms = audit(prop_id)
+    from .progprop import ProgramProperty
+    if isinstance(prop, ProgramProperty):
+        # the Lean spec checker that judges the implementation's outputs for this property is itself covered by soundness
+        # theorems (`checker_*`, Properties/Checker.lean: the checker never objects to the model); audited alongside
+        thms += audit("checker")
     required = set(prop.theorems)
     have = {t["name"] for t in thms}
     missing = sorted(required - have)
